@@ -103,6 +103,78 @@ func initSyncIntrinsics() {
 		return nil, true
 	})
 
+	// sync.Cond: waiters are parked until signalled; L is released while waiting
+	type condWaiter struct{ signalled bool }
+	type condState struct{ waiters []*condWaiter }
+	getCond := func(fr *frame, recv value) *condState {
+		side := needPathOrInit(fr)
+		type ck struct{ p *value }
+		key := ck{recv.(*value)}
+		if s, ok := side[key]; ok {
+			return s.(*condState)
+		}
+		s := &condState{}
+		side[key] = s
+		return s
+	}
+	condL := func(fr *frame, recv value) iface {
+		p := recv.(*value)
+		if p == nil {
+			panic(runtimePanic("invalid memory address or nil pointer dereference (nil *sync.Cond)"))
+		}
+		st := (*p).(structure)
+		for _, f := range st {
+			if it, ok := f.(iface); ok {
+				return it
+			}
+		}
+		panic(engineError("sync.Cond without L"))
+	}
+	invokeLocker := func(fr *frame, l iface, name string) {
+		if l.t == nil {
+			panic(runtimePanic("nil Locker in sync.Cond"))
+		}
+		ms := fr.i.prog.MethodSets.MethodSet(l.t)
+		for i := 0; i < ms.Len(); i++ {
+			if ms.At(i).Obj().Name() == name {
+				call(fr.i, fr, 0, fr.i.prog.MethodValue(ms.At(i)), []value{l.v})
+				return
+			}
+		}
+		panic(engineError("Locker without " + name))
+	}
+	reg("(*sync.Cond).Wait", func(fr *frame, a []value) (value, bool) {
+		cs := getCond(fr, a[0])
+		w := &condWaiter{}
+		cs.waiters = append(cs.waiters, w)
+		l := condL(fr, a[0])
+		invokeLocker(fr, l, "Unlock")
+		blockUntil(fr, "cond.Wait", func() bool { return w.signalled })
+		invokeLocker(fr, l, "Lock")
+		return nil, true
+	})
+	reg("(*sync.Cond).Signal", func(fr *frame, a []value) (value, bool) {
+		cs := getCond(fr, a[0])
+		for i, w := range cs.waiters {
+			if !w.signalled {
+				w.signalled = true
+				cs.waiters = append(cs.waiters[:i:i], cs.waiters[i+1:]...)
+				break
+			}
+		}
+		visibleOp(fr, "cond.Signal")
+		return nil, true
+	})
+	reg("(*sync.Cond).Broadcast", func(fr *frame, a []value) (value, bool) {
+		cs := getCond(fr, a[0])
+		for _, w := range cs.waiters {
+			w.signalled = true
+		}
+		cs.waiters = nil
+		visibleOp(fr, "cond.Broadcast")
+		return nil, true
+	})
+
 	// sync.WaitGroup
 	type wgState struct{ n int64 }
 	getWG := func(fr *frame, recv value) *wgState {
@@ -378,6 +450,10 @@ func initMiscIntrinsics() {
 		return nil, true
 	})
 
+	// log levels: logging is stubbed, so no level is enabled
+	for _, lvl := range []string{"Debug", "Info", "Warn", "Error"} {
+		reg("(*istio.io/istio/pkg/log.Scope)."+lvl+"Enabled", func(fr *frame, a []value) (value, bool) { return false, true })
+	}
 	// runtime odds and ends
 	nop := func(fr *frame, a []value) (value, bool) { return nil, true }
 	for _, n := range []string{"runtime.GC", "runtime.Gosched", "runtime.KeepAlive", "runtime.SetFinalizer", "time.Sleep",
